@@ -407,6 +407,11 @@ def chord_instrument_to_notes(chord, voice, part_name, ins_idx, last_spelling=No
                     voice.append(note.Rest(n.duration))
                     last_is_silence = True
 
+        if part.duration < chord.duration:
+            # A part shorter than its chord is silent until the next chord starts
+            voice.append(note.Rest(chord.duration - part.duration))
+            last_is_silence = True
+
     else:
         voice.append(note.Rest(chord.duration))
         last_is_silence = True
